@@ -52,13 +52,126 @@ def operand_env_walk(node, env, conds, out, errs, acc_names):
         operand_env_walk(c, env, conds, out, errs, acc_names)
 
 
+class ShapeUnknown(Exception):
+    pass
+
+
+def select_value(node, env, conds, out):
+    """operands denoted by an expression that *selects* an amount (the addition happens once, after the match):
+    a path, `match p { Some(x) => .., None => .. }`, `if let Some(x) = p {..} else {..}`, `p.as_ref().unwrap_or(q)`;
+    `continue` / unit select nothing. Raises ShapeUnknown for anything else."""
+    n = H.strip(node)
+    if not H.is_node(n):
+        raise ShapeUnknown("non-node")
+    k = n[0]
+    if k in ("continue",) or (k == "tup" and not n[2]):
+        return
+    if k == "block":
+        if n[2]:
+            raise ShapeUnknown("statements in a selecting block")
+        if n[3] is None:
+            return
+        return select_value(n[3], env, conds, out)
+    if k == "call" and str(n[2] or "").endswith("Ok") and len(n[4]) == 1 and H.path_str(n[4][0], env) is not None and not str(H.path_str(n[4][0], env)).startswith(("$v", "param:")):
+        return  # Ok(acc): nothing added
+    if k == "mcall" and n[2] in ("unwrap_or",) and len(n[5]) == 1:
+        p = H.path_str(n[4], env)
+        if p is not None and p.endswith(".as_ref()"):
+            p = p[: -len(".as_ref()")]
+        q = H.path_str(n[5][0], env)
+        if p is None or q is None:
+            raise ShapeUnknown("unwrap_or operands")
+        out.append("|".join([p] + conds + ["if-some(%s)" % p]))
+        out.append("|".join([q] + conds + ["if-none(%s)" % p]))
+        return
+    if k == "match":
+        ip = H.path_str(n[2], env)
+        if ip is None:
+            raise ShapeUnknown("match on a computed value")
+        for pat, guard, body in n[3]:
+            if guard is not None:
+                raise ShapeUnknown("guard")
+            v = H.pat_variant(pat) or ""
+            binds = H.pat_bindings(pat)
+            env2 = dict(env)
+            if v.endswith("Some"):
+                if len(binds) == 1:
+                    env2[binds[0]] = ip
+                select_value(body, env2, conds + ["if-some(%s)" % ip], out)
+            elif v.endswith("None"):
+                select_value(body, env2, conds + ["if-none(%s)" % ip], out)
+            else:
+                raise ShapeUnknown("match arm %s" % v)
+        return
+    if k == "if" and H.is_node(n[2]) and n[2][0] == "letx" and n[4] is not None:
+        pat, init = n[2][2], n[2][3]
+        ip = H.path_str(init, env)
+        v = H.pat_variant(pat) or ""
+        binds = H.pat_bindings(pat)
+        if ip is None or not v.endswith("Some"):
+            raise ShapeUnknown("if let")
+        env2 = dict(env)
+        if len(binds) == 1:
+            env2[binds[0]] = ip
+        select_value(n[3], env2, conds + ["if-some(%s)" % ip], out)
+        select_value(n[4], env, conds + ["if-none(%s)" % ip], out)
+        return
+    p = H.path_str(n, env)
+    if p is not None:
+        out.append("|".join([p] + conds))
+        return
+    raise ShapeUnknown("expression kind %s" % k)
+
+
+def _selected_matches(body, enum_suffix, acc_names):
+    """id(match node) for `let X = match <CertificateEnum> {..}` whose X is later handed to checked_add on an accumulator"""
+    out = {}
+    for b in H.walk(body):
+        if b[0] != "block":
+            continue
+        for i, st in enumerate(b[2]):
+            if st[0] != "let" or st[3] is None:
+                continue
+            init = H.strip(st[3])
+            if not (H.is_node(init) and init[0] == "match" and (init[5] or "").replace("&", "").strip().endswith(enum_suffix)):
+                continue
+            names = H.pat_bindings(st[2])
+            if len(names) != 1:
+                continue
+            rest = ["block", 0, b[2][i + 1:], b[3]]
+            for m in H.walk(rest):
+                if m[0] == "mcall" and m[2] == "checked_add" and m[5] and H.path_str(m[5][0]) == names[0] and H.path_str(m[4]) in acc_names:
+                    out[id(init)] = names[0]
+    return out
+
+
+def acc_names_of(hir):
+    """names that are accumulators by construction: `let mut x = <T>::zero()` and the first parameter of a closure handed to
+    fold / try_fold (so that renaming a local does not change the verdict)"""
+    out = set()
+    for n in H.walk(hir["body"]):
+        if n[0] == "block":
+            for st in n[2]:
+                if st[0] == "let" and st[3] is not None:
+                    init = H.strip(st[3])
+                    if H.is_node(init) and init[0] == "call" and str(init[2] or "").endswith("::zero") and not init[4]:
+                        out |= set(H.pat_bindings(st[2]))
+        if n[0] == "mcall" and n[2] in ("fold", "try_fold") and len(n[5]) == 2 and H.is_node(n[5][1]) and n[5][1][0] == "closure" and n[5][1][3]:
+            b = H.pat_bindings(n[5][1][3][0])
+            if b:
+                out.add(b[0])
+    return out
+
+
 def cert_table(F, hir, enum_suffix, param_names, acc_names):
     """-> (table: variant -> sorted operands, wild_operands, errs, n_matches)"""
+    acc_names = set(acc_names) | acc_names_of(hir)
     table = {}
     wild = []
     errs = []
     n = 0
     env0 = {p: "param:" + p for p in param_names}
+    selected = _selected_matches(hir["body"], enum_suffix, acc_names)
     for node in H.walk(hir["body"]):
         if node[0] != "match":
             continue
@@ -73,6 +186,12 @@ def cert_table(F, hir, enum_suffix, param_names, acc_names):
                 for b in H.pat_bindings(alt):
                     env[b] = "$v"
                 operand_env_walk(body, env, [], ops, errs, acc_names)
+                if not ops and id(node) in selected:
+                    # the arms only select the amount; one checked_add on the accumulator follows the match
+                    try:
+                        select_value(body, env, [], ops)
+                    except ShapeUnknown as e:
+                        errs.append("SHAPE: arm value not understood (%s, line %d)" % (e, node[1]))
                 if guard is not None:
                     errs.append("match guard on a certificate arm (line %d)" % node[1])
                 v = H.pat_variant(alt)
